@@ -152,7 +152,7 @@ def parse_unit(path):
             cl, i = parse_clauses(i)
             u.loop_clauses.setdefault((q, int(k)), []).extend(cl)
         elif d == "@ghost":
-            m = re.match(r"(\S+)\s+(before|after|body-start|body-end)\s*(?:`(.*)`)?\s*$", rest)
+            m = re.match(r"(\S+)\s+((?:before|after)(?:#\d+/\d+)?|body-start|body-end)\s*(?:`(.*)`)?\s*$", rest)
             if not m:
                 raise Undecided("bad @ghost in %s:%d" % (path, i))
             txt = []
@@ -172,7 +172,7 @@ def parse_unit(path):
         elif d == "@external":
             u.external[rest.strip()] = True
         elif d == "@check":
-            m = re.match(r"(\S+)\s+\[(\w+)\]\s+(before|after)\s+`(.*)`\s*$", rest)
+            m = re.match(r"(\S+)\s+\[(\w+)\]\s+((?:before|after)(?:#\d+/\d+)?)\s+`(.*)`\s*$", rest)
             if not m:
                 raise Undecided("bad @check in %s:%d" % (path, i))
             txt = []
@@ -413,6 +413,8 @@ class Rewriter:
             text = self.r4b_this_to_self(scope, text)
         if "R13" in u.rw:
             text = self.r13_bytestr(scope, text)
+        if "R13o" in u.rw:
+            text = self.r13_bytestr(scope, text, opaque=True)
         if u.index_recv:
             text = self.r6_index(scope, text)
         if "R16" in u.rw:
@@ -569,6 +571,16 @@ class Rewriter:
                  (r"\bthis\s*=\s*self(?:\.as_mut\(\))?\.project\(\);", ""),
                  (r"\*this\.", "self."), (r"\bthis\.", "self."), (r"\bself\.as_mut\(\)\.", "self.")]
         n = 0
+        # a projected field passed as a whole call argument (`f(this.flags)`, `.encode(x, this.write_buf)`) is the
+        # projected `&mut F` being reborrowed: `&mut *this.f` (then `&mut self.f` by the rules below)
+        m = rl.mask(text)
+        out, last = [], 0
+        for mt in re.finditer(r"(?<=[(,])(\s*)this\.(\w+)(\s*)(?=[,)])", m):
+            out.append(text[last:mt.start()] + mt.group(1) + "&mut *this." + mt.group(2) + mt.group(3))
+            last = mt.end()
+            n += 1
+        out.append(text[last:])
+        text = "".join(out)
         for rx, new in rules:
             out = []
             last = 0
@@ -582,8 +594,9 @@ class Rewriter:
         self.note("R4b", scope, "%d projection sites (`this.f`, `*this.f`, `self.as_mut().m(`, `this = self.project()`)" % n, "`self.f` / `self.m(`")
         return text
 
-    def r13_bytestr(self, scope, text):
-        """b"..." -> &[b0, b1, ...] (the same bytes, as an array literal whose contents Verus can see)"""
+    def r13_bytestr(self, scope, text, opaque=False):
+        """b"..." -> &[b0, b1, ...] (the same bytes, as an array literal whose contents Verus can see);
+        R13o: -> byte_str_opaque(N): only the length is kept (for units whose clauses do not depend on the bytes)"""
         out = []
         i = 0
         n = len(text)
@@ -596,8 +609,8 @@ class Rewriter:
             e = rl._string_end(text, s)
             lit = text[s + 2:e - 1]
             bs = _decode_bytestr(lit)
-            new = "&[" + ", ".join("%du8" % b for b in bs) + "]"
-            self.note("R13", scope, text[s:e], new)
+            new = ("byte_str_opaque(%d)" % len(bs)) if opaque else "&[" + ", ".join("%du8" % b for b in bs) + "]"
+            self.note("R13o" if opaque else "R13", scope, text[s:e], new)
             out.append(text[pos:s] + new)
             pos = e
         out.append(text[pos:])
@@ -775,6 +788,8 @@ def build(unit_path, mode="verify"):
     em = Emitter()
     em.add("// GENERATED by /verif/tools/extract.py from /repo working tree -- unit %s (%s)" % (u.name, mode))
     em.add("#![allow(unused, non_snake_case, non_camel_case_types, unreachable_patterns, unreachable_code)]")
+    if "collections" in u.shims:
+        em.add("#![feature(allocator_api)]   // only so that the VecDeque::is_empty specification can name the allocator parameter")
     em.add("use vstd::prelude::*;")
     # macros first (outside verus!)
     for d in u.seq:
@@ -1118,9 +1133,15 @@ def self_emit_fn(em, res, u, rw, qual, sig, body, orig, rel, self_subst, mode, d
             inserts.append((len(new_body) - 1, ("raw", txt, glabel)))
             continue
         n = new_body.count(anchor)
-        if n != 1:
-            raise Undecided("lost anchor: @ghost %s `%s` occurs %d times in %s" % (where, anchor[:50], n, qual))
-        at = new_body.index(anchor)
+        kth, want = 1, 1
+        if "#" in where:       # before#k/n: the k-th of exactly n occurrences
+            where, kn = where.split("#")
+            kth, want = (int(x) for x in kn.split("/"))
+        if n != want:
+            raise Undecided("lost anchor: @ghost %s `%s` occurs %d times in %s (expected %d)" % (where, anchor[:50], n, qual, want))
+        at = -1
+        for _ in range(kth):
+            at = new_body.index(anchor, at + 1)
         inserts.append((at if where == "before" else at + len(anchor), ("raw", txt, glabel)))
     if mode.startswith("vac_loop"):
         want = int(mode.split(":")[1]) if ":" in mode else None
